@@ -995,8 +995,13 @@ def move_before_loop(source: str) -> str:
             new_node.lineno = scope.lineno - 1
             new_node.col_offset = scope.col_offset
 
-            source = processing.alter_code(source, root, additions=[new_node], removals=[node])
-            return move_before_loop(source)
+            new_source = processing.alter_code(
+                source, root, additions=[new_node], removals=[node]
+            )
+            if new_source == source:  # Nothing was done, and nothing would be on another attempt
+                return source
+
+            return move_before_loop(new_source)
 
     return source
 
@@ -1638,8 +1643,13 @@ def _swap_implicit_if_else(source: str) -> str:
                 break
 
     if replacements or removals:
-        source = processing.alter_code(source, root, replacements=replacements, removals=removals)
-        return _swap_explicit_if_else(source)
+        new_source = processing.alter_code(
+            source, root, replacements=replacements, removals=removals
+        )
+        if new_source == source:  # Nothing was done, and nothing would be on another attempt
+            return source
+
+        return _swap_explicit_if_else(new_source)
 
     return source
 
@@ -4660,8 +4670,13 @@ def missing_context_manager(source: str) -> str:
         break
 
     if replacements:
-        source = processing.alter_code(source, root, replacements=replacements, removals=removals)
-        return missing_context_manager(source)
+        new_source = processing.alter_code(
+            source, root, replacements=replacements, removals=removals
+        )
+        if new_source == source:  # Nothing was done, and nothing would be on another attempt
+            return source
+
+        return missing_context_manager(new_source)
 
     return source
 
@@ -4718,8 +4733,13 @@ def _fix_duplicate_from_imports(source: str) -> str:
                 removals.update(import_nodes[1:])
 
     if replacements or removals:
-        source = processing.alter_code(source, root, replacements=replacements, removals=removals)
-        return _fix_duplicate_regular_imports(source)
+        new_source = processing.alter_code(
+            source, root, replacements=replacements, removals=removals
+        )
+        if new_source == source:  # Nothing was done, and nothing would be on another attempt
+            return source
+
+        return _fix_duplicate_regular_imports(new_source)
 
     return source
 
